@@ -23,6 +23,8 @@ pub enum Item {
     C05Seeds { base: u64, from: u64, to: u64, digests: bool },
     C05Keys { base: u64, prog: usize, k_from: u64, k_to: u64 },
     C16Enum { prog: usize, kind: String, idx: Vec<usize> },
+    /// generated programs (progen), plain and with one fault
+    C16Progen { base: u64, from: u64, to: u64 },
     /// every directed delivery variant of one program (both properties)
     Delivery { prop: String, prog: usize },
     C16Seeds { base: u64, from: u64, to: u64, digests: bool },
@@ -383,6 +385,18 @@ impl Worker {
                     self.world_stats(&w, &r, &mut rm);
                     bump(&mut rm.stats, "dim.keys", 1);
                     self.check_c05_world(&tag, &w, &r, &mut rm);
+                }
+            }
+            Item::C16Progen { base, from, to } => {
+                for i in from..to {
+                    let w = gen::c16_progen_world(base, i);
+                    let tag = format!("c16p:{}", i);
+                    let r = self.run(&tag, &w);
+                    self.world_stats(&w, &r, &mut rm);
+                    self.check_c16_world(&tag, &w, &r, &mut rm);
+                    if i == from {
+                        rm.samples.push(self.sample(&w, &r));
+                    }
                 }
             }
             Item::Delivery { prop, prog } => {
